@@ -328,4 +328,32 @@ theorem C02_handler_error (p : Path) (msg : Text) : contains (clientErrorText p 
 example : clientErrorText (.tool t!"echo") t!"disk full" = t!"tool call error: tool execution failed (tool: echo): disk full (code: -32603)" := by
   decide
 
+/-! ## routing: the payload never decides what kind of message a response is -/
+
+/-- **a response is routed as a response whatever its result contains** - for every id and every result JSON (any member
+    names at any depth, `"method"` and `"id"` included), by both classifiers of the library -/
+theorem C02_response_routed_by_envelope (id result : Json) :
+    classifyLegacySSE (responseEnvelope id result) = .response ∧ classifyMessageType (responseEnvelope id result) = .response := by
+  constructor <;> simp [classifyLegacySSE, classifyMessageType, responseEnvelope, hasKey, lookup, lookupStr?] <;> decide
+
+/-- ... in particular the encoding of every tool result and of every prompt result -/
+theorem C02_result_routed_as_response (id : Json) (r : CallToolResult) (p : GetPromptResult) :
+    classifyLegacySSE (responseEnvelope id (encodeResult r)) = .response ∧ classifyLegacySSE (responseEnvelope id (encodeGetPrompt p)) = .response :=
+  ⟨(C02_response_routed_by_envelope id _).1, (C02_response_routed_by_envelope id _).1⟩
+
+/-- the foil: a classifier that finds member names at any depth (a raw-text probe for `"id":` / `"method":`) takes the
+    response carrying structured content `{"request":{"method":"GET"}}` for a server request - the caller would never get it -/
+theorem C02_any_depth_routing_counterexample :
+    classifyAnyDepth (responseEnvelope (.int 1) (encodeResult ⟨[], some [.text t!"payload" none],
+      some (.obj [(t!"request", .obj [(t!"method", .str t!"GET")])]), false⟩)) = .request := by
+  decide
+
+/-- non-vacuity: that very result is routed as a response and decodes to what the handler returned -/
+example :
+    let r : CallToolResult := ⟨[(t!"id", .int 7), (t!"method", .str t!"tools/call")], some [.text t!"\"method\":" none],
+      some (.obj [(t!"request", .obj [(t!"method", .str t!"GET"), (t!"id", .int 1), (t!"params", .obj [(t!"result", .null), (t!"error", .str t!"jsonrpc")])])]), false⟩
+    classifyLegacySSE (responseEnvelope (.int 1) (encodeResult r)) = .response ∧ parseResult (encodeResult r) = .ok r := by
+  intro r
+  exact ⟨rfl, rfl⟩
+
 end Mcp.Props.C02
